@@ -31,7 +31,7 @@ void myth_verif_fpoint(const char *label);        /* level-F (unit harness) labe
 void myth_verif_fspin(const char *label);
 
 /* ---- control API for harnesses ---- */
-enum { VRT_STRAT_RANDOM = 0, VRT_STRAT_PCT = 1, VRT_STRAT_RR = 2 };
+enum { VRT_STRAT_RANDOM = 0, VRT_STRAT_PCT = 1, VRT_STRAT_RR = 2, VRT_STRAT_DELAY = 3 };
 typedef struct {
   int nworkers;
   unsigned seed;
